@@ -19,17 +19,26 @@ def modules(ctx):
     ea = [e for e in ents if e.split('_')[1] in ('add', 'remove', 'query')]
     eb = [e for e in ents if e.split('_')[1] in ('intersect', 'setops')]
     ma = V.Module(ctx, 'c16a', ['coverage.cc'], 'c16.cc', ea, defs=('VP_W=%d' % W,), native_libs=('-ldl',), traps=('_M_realloc_insert',))
-    mb = V.Module(ctx, 'c16b', ['coverage.cc'], 'c16.cc', eb, defs=('VP_W=%d' % W,), native_libs=('-ldl',))
-    return {'c16a': ma, 'c16b': mb}
+    mb = V.Module(ctx, 'c16b', ['coverage.cc'], 'c16.cc', eb, defs=('VP_W=%d' % W,), native_libs=('-ldl',),
+                  stubs=('cxxrt.c', 'vp_cbmc.c', 'ostream_null.c', 'vec_model.c'),
+                  overrides=('_ZNSt6vectorI9cov_rangeSaIS0_EE17_M_realloc_insertIJRKS0_EEEvN9__gnu_cxx17__normal_iteratorIPS0_S2_EEDpOT_',
+                             '_ZNSt6vectorI9cov_rangeSaIS0_EE17_M_realloc_insertIJS0_EEEvN9__gnu_cxx17__normal_iteratorIPS0_S2_EEDpOT_'))
+    mc = V.Module(ctx, 'c16cmp', ['coverage.cc', 'value-aset.cc', 'value.cc'], 'c16cmp.cc',
+                  ['c16_cmp_111', 'c16_cmp_222', 'c16_cmp_122', 'c16_cmp_012'], native_tus=V.ALL_CORE + V.ALL_DW, native_libs=V.ALL_LIBS,
+                  empties=('_ZN10value_type13register_type',), traps=('_M_realloc_insert',))
+    return {'c16a': ma, 'c16b': mb, 'c16cmp': mc}
 
 def plan(ctx):
     quick = ctx.tier == 'quick'
     jobs = []
     for op, kmax in OPS.items():
         ks = [2] if quick else [3]
+        if op in ('intersect', 'setops'):
+            # the result vector grows through libstdc++'s real reallocation path: smaller K
+            ks = [1] if quick else [2]
         for k in ks:
             for b in ('b0', 'b32', 'b63', 'btop'):
-                jobs.append(('c16_%s_k%d_%s' % (op, k, b), k, 300 if quick else 1500))
+                jobs.append(('c16_%s_k%d_%s' % (op, k, b), k, (900 if op in ('intersect', 'setops') else 300) if quick else 1800))
         if quick and op in ('add', 'remove', 'query'):
             jobs.append(('c16_%s_k3_b0' % op, 3, 500))
         if not quick and kmax >= 4:
@@ -54,6 +63,10 @@ def run(ctx):
         m = mods['c16a'] if e.split('_')[1] in ('add', 'remove', 'query') else mods['c16b']
         jobs.append(lambda e=e, k=k, to=to, m=m: V.run_entry(ctx, m, e, 2 * k + 6, timeout=to,
                                                           bounds='K<=%d runs, window 2^%d at base %s' % (k, W, e.split('_')[-1])))
+    for e in ('c16_cmp_111', 'c16_cmp_222', 'c16_cmp_122', 'c16_cmp_012'):
+        if ctx.only and e not in ctx.only:
+            continue
+        jobs.append(lambda e=e: V.run_entry(ctx, mods['c16cmp'], e, 8, timeout=600, bounds='three address sets of the run counts in the name, all starts/ends fully symbolic 64-bit'))
     V.run_parallel(jobs)
 
 def replay(ctx, js):
